@@ -57,6 +57,9 @@ var Profiles = map[string]Profile{
 	"redef": {Types: []string{"T1", "T2", "T3", "T4", "U1", "P1"}, Names: []string{"", "", "", "a", "a", "b", "x-y"}, Subs: []string{""},
 		MaxIn: 1, MaxOut: 1, MaxTIn: 2, MaxInputs: 2, MaxConvs: 4, Forms: []string{"pos", "struct", "ptr"}, FailProb: 0, OnceProb: 0.1,
 		MultiMax: 0, Modes: []string{"redefine"}, TargetOuts: 2, DefProb: 0.25},
+	"redefgen": {Types: []string{"T1", "T2", "T3", "T4"}, Names: []string{"", "", "", "a", "b"}, Subs: []string{""},
+		MaxIn: 1, MaxOut: 1, MaxTIn: 2, MaxInputs: 2, MaxConvs: 2, Forms: []string{"pos", "struct", "ptr", "built"}, FailProb: 0.05, OnceProb: 0.3,
+		MultiMax: 0, Modes: []string{"redefine"}, TargetOuts: 1, GenProb: 0.9},
 	"redeffail": {Types: []string{"T1", "T2", "T3", "T4"}, Names: []string{"", "", "a", "b"}, Subs: []string{""},
 		MaxIn: 1, MaxOut: 1, MaxTIn: 2, MaxInputs: 2, MaxConvs: 4, Forms: []string{"pos", "struct", "ptr"}, FailProb: 0.3, OnceProb: 0.1,
 		MultiMax: 0, Modes: []string{"redefine"}, TargetOuts: 2},
